@@ -215,7 +215,7 @@ def arc_path_check(model, Kt, verts, codes, thr, site):
     body = kinds[1:-1] if kinds[-1] == "Z" else kinds[1:]
     if any(kd not in ("L", "C4") for kd in body):
         out.append(V("%s/codes" % site, "codes %s: only LINETO/CURVE4 (+ final CLOSEPOLY) may follow the MOVETO" % cs))
-    if np.linalg.norm(pcs[0].end - Vs[0]) > edges[0]["allow"]:
+    if np.linalg.norm(pcs[0].end - Vs[0]) > edges[0]["tv"]:
         out.append(V("%s/start-vertex/%s" % (site, model), "path starts at %s, first vertex is %s" % (fmt(pcs[0].end), fmt(Vs[0]))))
     e = 0
     slack = 0.0
@@ -886,6 +886,7 @@ def case_wrongdim(case):
             o = "accepted"
         except GeometryError:
             o = "rejected"
+        o = "%s:%s/%s/dim%d" % (o, space, kind, n)
         if new_artists(before):
             v.append(V("wrongdim/%s/%s/artist-added" % (space, kind), "an artist was added for a %d-dimensional %s" % (n, kind)))
     finally:
@@ -978,8 +979,12 @@ def run(ctx):
     ctx.assume("horospheres of half-plane radius >= RADIUS_THRESHOLD with finite centre: nothing demanded (substituted by a rectangle)")
     ctx.assume("the order of the artists of a composite object and of the data points of a composite point is not fixed by the property")
     ctx.assume("colours, z-order, line styles are not examined")
-    ctx.tolerances["bezier"] = ("Euclidean 5e-4*r (+ vertex tolerance): matplotlib's cubic Bezier approximation of a circular arc "
-                                "of radius r (documented accuracy of Path.arc / unit_circle pieces of at most a quarter turn)")
+    ctx.tolerances["bezier"] = ("Euclidean delta = 5e-4*r + tol_arc(r) for sampled points of a drawn arc of radius r (DESIGN 4: accuracy class of "
+                                "matplotlib's cubic Bezier approximation of circular arcs).  Path.arc splits an arc into 2^ceil(extent/90deg) "
+                                "pieces, i.e. pieces of at most 45 degrees, whose radial error measured with this module's de Casteljau "
+                                "evaluator is 2.75e-5*r; 5e-4*r leaves a factor 18.  Largest observed ratio error/tolerance on the unchanged "
+                                "tree: 0.05.  A realistic defect (arc not reversed, wrong end point, chord instead of arc) is off by the size "
+                                "of the edge, >= 1e-2")
     ctx.tolerances["on-edge (metric)"] = (
         "for a sampled point x at Euclidean distance <= delta = 5e-4*r + tol_arc(r) from the true edge: hyperbolic distance from "
         "the geodesic line <= rho*delta + 1e-6 and d(A,x)+d(x,B)-d(A,B) <= 2*(rho*delta + 1e-6), rho = sup of the conformal "
@@ -1011,13 +1016,10 @@ def run(ctx):
                     rest = [x for x in range(k) if x not in (0, j)]
                     tails = [[P[x] for x in tl] for tl in itertools.permutations(rest)
                              if nondegenerate([P[0], P[j]] + [P[x] for x in tl])]
-                    if k == 8:
-                        tails = tails[::6]
                     for s in range(0, len(tails), 40):
                         cases.append({"model": model, "tf": tf, "head": [P[0], P[j]], "tails": tails[s:s + 40]})
         product("polygons-6-7-8", "checks.c19:case_polygons", cases,
-                    domains={"sub-lattice": big, "tuples": "all orderings with first vertex fixed of the first 6 / first 7 points; "
-                             "every 6th ordering (lexicographic) of all 8 points"}, chunk=2, exhaustive=True)
+                    domains={"sub-lattice": big, "tuples": "all orderings, first vertex fixed, of the first 6, the first 7 and all 8 points"}, chunk=2)
     # composites: two polygons in one call
     comp = []
     tri = [[pts[0], pts[1], pts[8]], [pts[3], pts[5], pts[9]], [pts[2], pts[10], pts[4]], [pts[7], pts[6], pts[1]]]
